@@ -12,3 +12,28 @@ def cand_instance(mbw, cur):
 
 def cand_all():
     return [(w, c) for w in (1, 2, 3) for c in range(0, 9)]
+
+
+MODEL_STUBS = ('    #[cfg_attr(kani, kani::stub(crate::parser::reader::H263Reader::peek_bits, crate::parser::reader::H263Reader::peek_bits_model))]\n'
+               '    #[cfg_attr(kani, kani::stub(crate::parser::reader::H263Reader::skip_bits, crate::parser::reader::H263Reader::skip_bits_model))]\n'
+               '    #[cfg_attr(kani, kani::stub(crate::parser::reader::H263Reader::rollback, crate::parser::reader::H263Reader::rollback_model))]\n'
+               '    #[cfg_attr(kani, kani::stub(crate::parser::reader::H263Reader::commit, crate::parser::reader::H263Reader::commit_model))]\n')
+
+
+def hdr_sorenson_name(phase):
+    return "c06_sorenson_p%d" % phase
+
+
+def hdr_sorenson(phase, unwind=11):
+    return ('    #[cfg_attr(kani, kani::proof)]\n    #[cfg_attr(kani, kani::unwind(%d))]\n%s'
+            '    pub fn %s() { sorenson_check::<%d>() }\n' % (unwind, MODEL_STUBS, hdr_sorenson_name(phase), phase))
+
+
+def hdr_std_name(phase, kind, scal, prev):
+    return "c06_std_k%d_p%d_%s_%s" % (kind, phase, "scal" if scal else "noscal", "prev" if prev else "first")
+
+
+def hdr_std(phase, kind, scal, prev, unwind=11):
+    return ('    #[cfg_attr(kani, kani::proof)]\n    #[cfg_attr(kani, kani::unwind(%d))]\n%s'
+            '    pub fn %s() { standard_check::<%d, %d, %s, %s>() }\n' % (unwind, MODEL_STUBS, hdr_std_name(phase, kind, scal, prev), phase, kind,
+                                                                       "true" if scal else "false", "true" if prev else "false"))
